@@ -40,9 +40,14 @@ func Parse(str string) (Selector, error) {
 		return Selector{segment{str: ".?", identity: true, optional: true}}, nil
 	}
 
+	toks, closed := tokenize(str)
+	if !closed {
+		return nil, newParseError("selector contains an unterminated quote", str, len(str), "")
+	}
+
 	col := 0
 	var sel Selector
-	for _, tok := range tokenize(str) {
+	for _, tok := range toks {
 		seg := tok
 		opt := strings.HasSuffix(tok, "?")
 		if opt {
@@ -133,7 +138,10 @@ func MustParse(sel string) Selector {
 	return s
 }
 
-func tokenize(str string) []string {
+// tokenize splits a selector into its segments.
+// The second result is false when a quote is left open, in which case the tail of
+// the selector belongs to no token and the selector must be rejected.
+func tokenize(str string) ([]string, bool) {
 	var toks []string
 	col := 0
 	ofs := 0
@@ -166,11 +174,15 @@ func tokenize(str string) []string {
 		col++
 	}
 
-	if ofs < col && ctx != "\"" {
+	if ctx == "\"" {
+		return nil, false
+	}
+
+	if ofs < col {
 		toks = append(toks, str[ofs:col])
 	}
 
-	return toks
+	return toks, true
 }
 
 type parseerr struct {
